@@ -177,7 +177,7 @@ pub fn gen_spec(seed: u64, run: u64, fl: MtFlavour) -> MtSpec {
         let mut prog = Vec::new();
         // weights: alloc_bytes, aligned, typed, drop, detach_forget, rewrite, check, discard, clone, drop_arena, send, recv
         let w: [u32; 12] = match fl {
-            MtFlavour::Safety => [30, 10, 22, 36, 2, 4, 3, 0, 0, 0, 0, 0],
+            MtFlavour::Safety => [30, 10, 22, 36, 2, 4, 3, 1, 0, 0, 0, 0],
             MtFlavour::Liveness => [30, 8, 18, 36, 4, 0, 0, 4, 0, 0, 0, 0],
             MtFlavour::Hb => [28, 8, 18, 34, 2, 4, 2, 1, 4, 4, 5, 5],
             MtFlavour::Lifecycle => [22, 6, 16, 30, 5, 0, 0, 0, 9, 9, 6, 6],
@@ -348,7 +348,7 @@ pub fn run_spec(spec: &MtSpec, record_events: bool) -> MtOut {
         // C13: reference count equals the number of live arena values
         let live_values: usize = ends.iter().map(|e| e.arenas.iter().flatten().count() + e.handles.iter().filter(|h| h.owned).count()).sum::<usize>() + ctl.iter().count() + st.mailbox.iter().map(|m| m.len()).sum::<usize>();
         let zero_owned: usize = ends.iter().map(|e| e.handles.iter().filter(|h| h.owned && h.h.0.meta().3 == 0 && h.drop_id.is_none()).count()).sum::<usize>()
-            + st.mailbox.iter().map(|m| m.iter().filter(|(h, _, _)| h.0.meta().3 == 0).count()).sum::<usize>();
+            + st.mailbox.iter().map(|m| m.iter().filter(|(h, _, _, _)| h.0.meta().3 == 0).count()).sum::<usize>();
         if live_values > 0 && !st.torn_down {
             // refs() can only be observed through an arena value (owned handles do not expose it)
             if let Some(any) = ctl.as_deref().or_else(|| ends.iter().flat_map(|e| e.arenas.iter().flatten()).next().map(|b| &**b)) {
@@ -366,10 +366,24 @@ pub fn run_spec(spec: &MtSpec, record_events: bool) -> MtOut {
             st.viols.push(Violation { prop: "C13", class: "teardown_count", detail: format!("[end] all arena values dropped inside the simulation but the backing store was released {} times", st.teardowns), op: 0 });
         }
     }
+    // C13: a value that needs dropping is dropped exactly once when its non-detached handle is dropped
+    if !out.aborted {
+        let dropped = mt::drained_drops();
+        for id in &st.expected_drops {
+            let n = dropped.iter().filter(|d| *d == id).count();
+            if n != 1 {
+                st.viols.push(Violation { prop: "C13", class: "value_drop", detail: format!("[end] value id={} of a handle dropped inside the simulation was dropped {} times", id, n), op: 0 });
+                break;
+            }
+        }
+        if let Some(d) = dropped.iter().find(|d| !st.expected_drops.contains(d)) {
+            st.viols.push(Violation { prop: "C13", class: "value_drop", detail: format!("[end] value id={} was dropped although its handle is still alive or was detached", d), op: 0 });
+        }
+    }
     // ---- clean-up outside the simulation (detached, so nothing is released into the list)
     let torn = st.torn_down;
     for mb in st.mailbox.iter_mut() {
-        for (mut h, _, _) in mb.drain(..) {
+        for (mut h, _, _, _) in mb.drain(..) {
             if torn {
                 std::mem::forget(h);
             } else {
